@@ -14,6 +14,11 @@ Exploration: configuration space.  A state is one complete space configuration
   prod     product spaces over tensor / discretized leaves: pairs, powers, nested to depth 3,
            own weighting (none, constant, per-component array) and exponent per node
   custom   user supplied inner= / norm= / dist= callables (tensor and product spaces)
+  derived  spaces and elements reached from a tensor / discretized space through astype(dtype),
+           real_space, complex_space, x.real, x.imag, x.conj(), x.copy(), x.astype(dtype): they
+           carry the weighting and the exponent of the space they come from
+  regimes  discretized spaces far from the origin, with tiny / huge cells, and with boundary-cell
+           fractions next to (not equal to) 1 and 1/2: tolerances inside the library are visible
 
 Inside a state the real odl code (x.inner(y), x.norm(), x.dist(y)) is executed
   * on ALL pairs of V^n when the space has at most 3 real (2 complex) entries (small scope),
@@ -1234,7 +1239,13 @@ def site_of(cfg):
         return 'ProductSpace[%s,%s,w=%s,%s]' % (cfg['name'], tags, _wcls(cfg['w']),
                                                 _pcls(cfg['p']))
     if k == 'derived':
-        return 'derived[%s|%s]' % (cfg['via'], site_of(cfg['base']))
+        b = cfg['base']
+        bs = site_of(b)
+        w = b.get('w', 'default')
+        w = w if w in ('default', 'c1.0') else _wcls(w)
+        return 'derived[%s|%s,w=%s%s,%s,%s]' % (
+            cfg['via'], bs.split('[')[0], w, ',cv1' if ',cv1' in bs else '', _pcls(b['p']),
+            b['dtype'])
     if k == 'whist':
         return 'array_weight_history[%s,%s]' % (cfg['name'], _pcls(cfg['space']['p']))
     if k == 'custom':
@@ -1277,6 +1288,8 @@ def _tensor_configs(thorough):
     for sh in shapes:
         lays = ['C', 'S'] if len(sh) == 1 else ['C', 'F', 'FC', 'S']
         ws = ['none', 'c0.5', 'c2.0', 'arr'] + (['arrF'] if len(sh) > 1 else [])
+        if sh == [3]:
+            ws.append('c1.0')                   # an explicit constant equal to the default
         for dt in ('float64', 'complex128', 'float32', 'complex64'):
             for lay in lays:
                 for w in ws:
@@ -1870,6 +1883,13 @@ def meta(tier):
                                 'x %s; 6 3-d; 50001'
                                 % (([0, .25, .5, 1, 1.25], 8, '{1,2,3}^2, (5,2), (3,5)') if thorough
                                    else ([0, .25, .5, 1.25], 5, '(2,3), (3,1), (1,2), (3,3)')),
+            'geometry regimes': 'uniform_discr and misaligned grids: domain 2^17 ... 2^24 from '
+                                'the origin (cell sides 1, 2^-10, non-dyadic), cell side 2^-30 / '
+                                '1e-9 units / 2^20; boundary-cell fractions 1 +- 2^-20, 1/2 + 2^-20',
+            'derived objects': VIAS_SPACE + VIAS_ELEM,
+            'derived from': 'tensor (3,), (2,2) and uniform_discr / frompartition (3,), (2,3) x '
+                            'weighting {none, 1.0, 2.0, 0.5, array, default cell volume (also '
+                            'exactly 1)} x every exponent x every floating dtype',
             'product spaces': [s[0] for s in _prod_structs(thorough)],
             'product weightings': ['none', 0.5, 2.0, 'per-component array %s' % PWA],
         },
@@ -1885,6 +1905,14 @@ def meta(tier):
             'on norm and dist only (the ProductSpace notes define both through component norms)',
             'the weighted p-norm is the documented one, (sum w |x|^p)^(1/p) and max w |x|; the '
             'limit p -> inf is documented not to hold and is not demanded',
+            'discretized spaces: the tolerance is at least 16 * 2^-52 * max|coordinate| / cell side '
+            '(rounding of the grid coordinates themselves); it exceeds 1e-12 only for the '
+            'non-dyadic far-from-origin boxes',
+            'derived objects: astype is documented as "a copy of this space with new dtype", so '
+            'weighting and exponent of the parent are demanded; left out: product spaces '
+            '(ProductSpace.astype / real_space / complex_space drop weighting and exponent: known '
+            'finding of C20) and array-weighted spaces converted to another precision (astype '
+            'raises: known finding of C20); complex -> real element astype is not enumerated',
         ],
     }
 
